@@ -8,9 +8,15 @@ def build(repo, tier, seed):
     from . import templated_keys_proof
     v6, u6 = templated_keys_proof.build(repo)
     v7, u7 = templated_keys_proof.option_contract(repo)
-    b = classlaws.bundle(repo, tier, seed, ("L1", "L2", "L5"), classes=["Option", "_AllOptions"], bounded=True, extra_vcs=v6 + v7)
+    from . import template_init
+    v8, u8 = template_init.vcs(repo)
+    b = classlaws.bundle(repo, tier, seed, ("L1", "L2", "L3", "L4a", "L4t", "L5", "L5b", "L5d", "L6", "L6v"), classes=["Option", "_AllOptions", "Template"], bounded=False,
+                         extra_vcs=v6 + v7 + v8)
     b["syntactic"] += syn
-    b["undecided"] += und + u6 + u7
+    b["undecided"] += und + u6 + u7 + u8
+    fns, hs = fn_hashes(repo, ["labrea.template:Template.__init__", "labrea.template:_literal", "labrea.option:_templated_keys"])
+    b["functions"] += fns
+    b["hashes"].update(hs)
     from harness import template_search
     wit, n = template_search.search(seed, 40 if tier == "quick" else 1500)
     b["bounded"].append({"what": "Template.evaluate against an independent substitution (transitive, escaped braces, parameters); keys/explain cover the keys it reads; templated Option defaults",
@@ -25,6 +31,9 @@ def build(repo, tier, seed):
     b["assumptions"] += ["proved: Template.evaluate evaluates its parameters under the same options, performs the substitution by exactly one call resolve(template, mix(options, params)) and "
                          "returns its string form; a KeyError of the substitution becomes a KeyNotFoundError carrying the key; Option/AllOptions report the reads of templated values at any "
                          "nesting depth through the contract of option._templated_keys, which is PROVED against its recursive body (reads of the substitution are reported: TK-RD) relative to the assumed structure of confectioner.resolve",
-                         "NOT decided by proof: the substitution itself (escaped braces, str() forms, transitive replacement) happens inside confectioner.resolve (assumed contract OptTheory.resolve); "
-                         "Template.keys/explain/validate and Template.__init__'s parameter check are covered by the bounded real-code search only"]
+                         "proved: Template.keys/explain/validate/evaluate satisfy the interface laws L1-L6 (keys sufficient and present-only, explain names the missing options, validate and evaluate "
+                         "agree, failures are missing-option errors naming the key) relative to OptTheory.resolve.params/.escape (assumed, bounded-validated by harness/tp_validate.py), outside the regions of "
+                         "F28 (A-plainrefs) and F31 (A-noparam); the class invariant 'every :name: placeholder is bound' is proved on Template.__init__ (group Template:init); the class contract of a "
+                         "default-less Option used for the {KEY} references is proved on Option.evaluate/validate/keys/explain (group Option:contract)",
+                         "NOT decided by proof: the substitution itself (escaped braces, str() forms, transitive replacement) happens inside confectioner.resolve (assumed contracts OptTheory.resolve*)"]
     return b
